@@ -673,7 +673,10 @@ pub fn run(world: &World, cfg: &RunCfg, seed: u64, tag: &str) -> Outcome {
 
 /// `long`: the serving node compacts before it serves. `fat`: 120+ blocks with 11 outputs each, so
 /// that the archive header commits to more than 1024 outputs (a bitmap MMR with several leaves).
-pub fn build_world(seed: u64, long: bool, fat: bool) -> Result<World, String> {
+/// `quiet`: the last 32 blocks carry no transaction at all, so that nothing is spent between the
+/// archive header and the serving node's head (the segmenter's rewind to the archive header then
+/// has no spent position to start its bitmap rebuild from).
+pub fn build_world(seed: u64, long: bool, fat: bool, quiet: bool) -> Result<World, String> {
 	let mut r = SimRng::new(seed).fork("cfg");
 	let mut cfg = WorldCfg::draw(&mut r, true);
 	cfg.free_difficulty = false;
@@ -695,6 +698,11 @@ pub fn build_world(seed: u64, long: bool, fat: bool) -> Result<World, String> {
 			eprintln!("  block h{} outputs {} inputs {} kernels {}", b.height, b.block.outputs().len(), b.block.inputs().len(), b.block.kernels().len());
 		}
 	}
+	if quiet {
+		for _ in 0..32 {
+			tip = w.extend_empty(tip, 0)?;
+		}
+	}
 	if long {
 		// the serving node compacts (horizon = head - 20), then the chain grows on so that the archive
 		// header it offers later (head - 20 rounded down to 10) is not below that horizon: on mainnet
@@ -714,7 +722,8 @@ pub fn case(tier: &str, seed: u64, case: u64) -> CaseResult {
 	let mut res = CaseResult::new(case, seed);
 	let long = case % 4 == 3;
 	let fat = case % 8 == 6;
-	let mut world = match build_world(seed, long, fat) {
+	let quiet = case % 8 == 1;
+	let mut world = match build_world(seed, long, fat, quiet) {
 		Ok(w) => w,
 		Err(e) => {
 			res.harness_error = Some(format!("pibd world: {}", e));
@@ -723,6 +732,9 @@ pub fn case(tier: &str, seed: u64, case: u64) -> CaseResult {
 	};
 	if long {
 		res.probe("server_compacted");
+	}
+	if quiet {
+		res.probe("quiet_tail_world");
 	}
 	if fat {
 		let outs = world.builder.chain().txhashset_archive_header().map(|h| h.output_mmr_count()).unwrap_or(0);
@@ -758,7 +770,7 @@ pub fn case(tier: &str, seed: u64, case: u64) -> CaseResult {
 			res.samples.push(json!({"cfg": format!("{:?}", cfg), "log": out.log}));
 		}
 		if let Some(mut v) = out.violation {
-			v.replay = json!({"engine": "pibdsim", "property": "C16", "case_seed": seed, "long": long, "fat": fat, "run_seed": rs,
+			v.replay = json!({"engine": "pibdsim", "property": "C16", "case_seed": seed, "long": long, "fat": fat, "quiet": quiet, "run_seed": rs,
 				"cfg": {"heights": [cfg.heights.0, cfg.heights.1, cfg.heights.2, cfg.heights.3], "dup": cfg.dup_pct, "drop": cfg.drop_pct, "corrupt": cfg.corrupt_pct, "chunk": cfg.header_chunk, "zip": cfg.zip_mode, "per_round": cfg.deliver_per_round},
 				"log": out.log});
 			res.violations.push(v);
@@ -784,7 +796,7 @@ pub fn replay(rp: &Value) -> Result<Option<Violation>, String> {
 		zip_mode: c["zip"].as_bool().unwrap_or(false),
 		deliver_per_round: c["per_round"].as_u64().unwrap_or(4) as usize,
 	};
-	let mut world = build_world(seed, long, rp["fat"].as_bool().unwrap_or(false))?;
+	let mut world = build_world(seed, long, rp["fat"].as_bool().unwrap_or(false), rp["quiet"].as_bool().unwrap_or(false))?;
 	let out = run(&world, &cfg, rp["run_seed"].as_u64().unwrap_or(0), "pibd-replay");
 	for l in &out.log {
 		println!("  {}", l);
